@@ -278,11 +278,18 @@ def covers_suite(ctx):
         cv = cl.Variable(shape=(3,), name='cvar')
         cvals = sagecorr.gen_c(ctx.rng, m, [cv[0], cv[1], cv[2]])
         heur = ctx.rng.random() < 0.6
+        settings = sagecorr.full_settings({'presolve_trivial_age_cones': False, 'heuristic_reduction': heur, 'kernel_basis': False})
+        dual_cone = ctx.rng.random() < 0.4
+        ctx.count('covers.cone', 'dual' if dual_cone else 'primal')
         try:
-            with warnings.catch_warnings():
+            # every setting explicit, the module-level defaults hold the opposite values: the presolve follows the constraint's own settings
+            with warnings.catch_warnings(), sagecorr.adversarial_globals(settings):
                 warnings.simplefilter('ignore')
-                con = cl.PrimalSageCone(Expression(cvals), np.array([[float(a) for a in r] for r in alpha]).reshape(m, n), X, 'cov',
-                                        settings={'presolve_trivial_age_cones': False, 'heuristic_reduction': heur, 'kernel_basis': False})
+                anp = np.array([[float(a) for a in r] for r in alpha]).reshape(m, n)
+                if dual_cone:
+                    con = cl.DualSageCone(cl.Variable(shape=(m,), name='covv'), anp, X, 'covd', c=Expression(cvals), settings=dict(settings))
+                else:
+                    con = cl.PrimalSageCone(Expression(cvals), anp, X, 'cov', settings=dict(settings))
         except RuntimeError:
             continue
         covs = [vlib.Some([bool(b) for b in con.ech.covers[i].tolist()]) if i in con.ech.U_I else None for i in range(m)]
